@@ -57,12 +57,16 @@ let () =
          | CUnmodelled -> print_endline "UNMODELLED"
          | COk cs -> print_endline (comps_str cs))
     | "tab" :: line :: ev :: ls ->
-        (match tab_line (mk_fs ls) (mk_env ev) (str_of_field line) with
+        (match tab_line (mk_fs ls) (mk_env ev) (fun _ -> false) (str_of_field line) with
          | TPanic -> print_endline "PANIC"
          | TUnmodelled -> print_endline "UNMODELLED"
+         | TOther -> print_endline "OTHER"
          | TSame -> print_endline "SAME"
          | TOne (nl, c) -> print_endline ("ONE " ^ q nl ^ " " ^ comp_str c)
          | TMany (nl, cs) -> print_endline ("MANY " ^ q nl ^ " " ^ comps_str cs))
+    | ["disp"; f] ->
+        print_endline (match dispatch false (str_of_field f) with
+          | DDots -> "dots" | DSsh -> "ssh" | DMake -> "make" | DBin -> "bin" | DEnv -> "env" | DCd -> "cd" | DPath -> "path")
     | ["rt"; f] ->
         let line = str_of_field f in
         let segs = line_to_cmds line in
